@@ -95,7 +95,8 @@ pub fn run(ctx: &mut Ctx) {
         }
         // one case in 24: very deep nesting (depths around powers of two and around every limit
         // written as a literal in pushr's source), with siblings left behind on the way out
-        if k % 24 == 7 {
+        // (every 24th case in the quick tier, every 240th of the 150 times larger thorough tier)
+        if k % (if ctx.quick() { 24 } else { 240 }) == 7 {
             let d = crate::gen::depth_tail(&mut r);
             let inner = items.pop().unwrap();
             items.push(crate::gen::deep_wrap(&mut r, inner, d));
